@@ -1160,6 +1160,14 @@ pub fn gen_program(r: &mut Rng, cfg: &CircuitConfig, fam: &Families, max_ops: us
             g.push(Op::Lookup(t, x));
         }
     }
+    // a trailing zero output every fourth program (zero-padding / truncation edge of the public-input hash)
+    if g.r.chance(1, 4) {
+        let a = g.f();
+        g.push(Op::Sub(a, a));
+        if g.r.chance(1, 2) {
+            g.push(Op::Const(0));
+        }
+    }
     // outputs: the last value and a random subset of the others
     let n = g.vals.len();
     let n_in = g.prog.inputs.len();
